@@ -50,6 +50,6 @@ m = {
               'kind_free_text': 'deterministic simulator: seeded operation-and-fault lists executed against real PySpike with simulator-owned import / file / random seams; five machines (api, backend, func, iom, genm); shrinking and replay files'}],
  'checks': checks,
  'not_applicable': NA,
- 'notes': 'Deterministic simulation with fault injection; see DESIGN.md (approach, findings, sensitivity) and README.md (layout). Nine genuine defects found by the checks were repaired in /repo as "fix:" commits and are listed in known_findings.json as fixed (they suppress nothing; their replays in corpus/ run first in every check). Every run starts from post-import module state (process-restart emulation), so violations that depend on memoised state replay in a fresh interpreter. 58 independently seeded breaking changes are kept under seeded/ (all caught; selftest/mutants.py, selftest/robustness.py).',
+ 'notes': 'Deterministic simulation with fault injection; see DESIGN.md (approach, findings, sensitivity) and README.md (layout). Nine genuine defects found by the checks were repaired in /repo as "fix:" commits and are listed in known_findings.json as fixed (they suppress nothing; their replays in corpus/ run first in every check). One further finding (NaN for time differences in the denormal range, e.g. a spike at 5e-324 next to an edge at 0) is recorded as a known finding for C05, C07 and C18. Every run starts from post-import module state (process-restart emulation), so violations that depend on memoised state replay in a fresh interpreter. 58 independently seeded breaking changes are kept under seeded/ (all caught; selftest/mutants.py, selftest/robustness.py).',
 }
 json.dump(m, open('/verif/MANIFEST.json','w'), indent=1)
